@@ -1,6 +1,6 @@
 (** Properties/C10.v — Derive-time validation accepts exactly the well-formed declarations.
     Statements only. *)
-From DarlingModel Require Import Options.Resolve Options.FieldOrderProofs.
+From DarlingModel Require Import Options.Resolve Options.FieldOrderProofs Options.VariantOrderProofs.
 From Coq Require Import Permutation.
 Local Open Scope string_scope.
 Local Open Scope list_scope.
@@ -93,9 +93,40 @@ Theorem C10_field_step_refines_abstract_step :
     abs f' = s' /\ (is_some o = e) /\ post_ok f'.
 Proof. exact field_step_refines. Qed.
 
+(** The VARIANT option chain ([InputVariant::parse_nested]), for every list of `#[darling(..)]`
+    attributes that are words or lists of meta items: it reports no error exactly when - over ALL
+    the attributes, in any order - each of `rename`, `skip`, `word` occurs at most once and in its
+    accepted form, `word` only on a unit variant, and nothing else occurs. *)
+Theorem C10_variant_accept_iff_well_formed :
+  forall reparse reparse_preds ident style attrs,
+    Forall list_attr attrs ->
+    (snd (parse_attributes (variant_step reparse reparse_preds) (mkV ident None None None style []) attrs) = []
+     <-> vwf (is_unit style) (map (vview reparse reparse_preds) (flat_items attrs))).
+Proof. exact variant_attrs_accept_iff_wf. Qed.
+
+Theorem C10_variant_acceptance_order_and_split_free :
+  forall reparse reparse_preds ident style attrs attrs',
+    Forall list_attr attrs -> Forall list_attr attrs' ->
+    Permutation (flat_items attrs) (flat_items attrs') ->
+    (snd (parse_attributes (variant_step reparse reparse_preds) (mkV ident None None None style []) attrs) = []
+     <-> snd (parse_attributes (variant_step reparse reparse_preds) (mkV ident None None None style []) attrs') = []).
+Proof. exact variant_attrs_split_and_order_free. Qed.
+
+(** Non-vacuity: `word` twice on a unit variant is rejected, `rename` + `skip` + `word` accepted,
+    `word` on a tuple variant rejected. *)
+Example C10_variant_nonvacuous :
+  let w := word_item "word" in
+  let attr items := darling_attr items in
+  snd (parse_attributes (variant_step (fun _ _ => None) (fun _ => None)) (mkV "V" None None None StUnit []) [attr [w; w]]) <> []
+  /\ snd (parse_attributes (variant_step (fun _ _ => None) (fun _ => None)) (mkV "V" None None None StUnit []) [attr [w]; attr [word_item "skip"]]) = []
+  /\ snd (parse_attributes (variant_step (fun _ _ => None) (fun _ => None)) (mkV "V" None None None StTuple []) [attr [w]]) <> [].
+Proof. cbv zeta. repeat split; vm_compute; try discriminate; reflexivity. Qed.
+
 Print Assumptions C10_rejection_is_never_empty.
 Print Assumptions C10_field_accept_iff_well_formed.
 Print Assumptions C10_well_formedness_is_order_free.
 Print Assumptions C10_field_acceptance_order_and_split_free.
 Print Assumptions C10_field_step_refines_abstract_step.
 Print Assumptions C10_container_order_dependence_refuted.
+Print Assumptions C10_variant_accept_iff_well_formed.
+Print Assumptions C10_variant_acceptance_order_and_split_free.
